@@ -16,6 +16,9 @@ FILES = ["gen/Gen_tensors.v", "Model_voigt.v", "Model_decomp.v", "Proofs_tensors
         [f"Proofs_tensors_rot{i}.v" for i in range(9)] + \
         ["Proofs_tensors_rot.v", "Proofs_tensors_maps.v", "Proofs_tensors_proj.v", "Inst_tensors.v",
          "Proofs_decomp.v", "Proofs_decomp2.v", "Proofs_decomp3.v", "Model_decomp_series.v", "Proofs_decomp_series.v",
+         # tie T for elasticity_components itself: regenerated from pydrex/diagnostics.py on every run
+         "gen/Gen_decomp.v", "Inst_decomp_base.v", "Inst_decomp_seg0.v", "Inst_decomp_seg1.v", "Inst_decomp_seg2.v",
+         "Inst_decomp.v", "Proofs_decomp_gen.v",
          "Entry_tensors.v", "Extract_tensors.v"]
 PROP = "Properties/C12.v"
 KEYS = ["bulk_modulus", "shear_modulus", "percent_anisotropy", "percent_hexagonal", "percent_tetragonal",
@@ -641,7 +644,7 @@ def search(chk, T, D, extra=()):
 
 
 def run(chk):
-    ok, br = proofs.prove(chk, FILES, PROP, groups=(G.GROUP,), gen_modules=("tensors",))
+    ok, br = proofs.prove(chk, FILES, PROP, groups=(G.GROUP,), gen_modules=("tensors", "decomp"))
     import pydrex.tensors as T
     import pydrex.diagnostics as D
     chk.cov["trusted_base"] = common.TRUSTED_COMMON + [
